@@ -9,7 +9,7 @@
    `w_log w` are the IDs recorded in the workspace's log (new CUD rows and argument-tree rows).
 
    The theorems are about the code after the repairs of F12 (adba86208), F41 (2dce4071c), F42 (cf81abbbf), F43
-   (d9932b09c) and F44 (ed8e8ed01); the last section keeps, as lemmas about the model variants selected by explicit
+   (d9932b09c), F44 (ed8e8ed01) and F46 (f867c6b2a); the last section keeps, as lemmas about the model variants selected by explicit
    flags, why each repair was needed.
 
    Hypotheses:
@@ -247,8 +247,7 @@ Qed.
 
 (* ================= 4. the link to the trace checker ================= *)
 (* `model_trace st h` is the trace the model itself produces for h (inputs + its outputs as observations).
-   For every bounded history (explicit IDs above the singleton band; while the pre-pass of F43 is missing: no explicit
-   IDs at all, `explicit_free`) that trace passes the property oracle `satisfies` that bin/check evaluates on the
+   For every bounded history whose explicit IDs lie above the singleton band that trace passes the property oracle `satisfies` that bin/check evaluates on the
    traces observed from the Go code.  So on every observed trace on which the code agrees with the model
    (`agrees`), `satisfies` holds for the reasons the theorems above give. *)
 Theorem model_traces_satisfy_the_oracle :
